@@ -190,6 +190,7 @@ func classify(prop string, o *outcome) (nontrivial bool, feature uint64, classes
 	add(len(r.P.Proto) > 0, "protocol-version-2-servers")
 	add(has("fresh-server-joins"), "fresh-server-joins")
 	add(anyPrefix(f, "log-read-error@"), "log-read-errors")
+	add(has("stale-installsnapshot-from-a-deposed-leader"), "stale-installsnapshot-from-a-deposed-leader")
 	add(has("verify-while-a-snapshot-is-in-flight"), "verify-while-a-snapshot-is-in-flight")
 	add(has("acked-entry-applied-in-one-batch-behind-an-inherited-command"), "acked-entry-batched-behind-inherited-command")
 	add(has("apply-ok"), "apply-ok")
